@@ -190,14 +190,14 @@ def sample(ctx, p, lo, up, res):
                                    "loom_end": res["end"], "loom_iters": res["iters"]})
 
 
-def validate_traces(ctx, progs, res, cfgname="MCTrace_upper.cfg", label="trace"):
+def validate_traces(ctx, progs, res, cfgname="MCTrace_upper.cfg", label="trace", pb_of=lambda i: -1):
     """Every recorded iteration must be a behaviour of LoomSemTrace.  Programs that carry a listed
     outcome-level finding are not trace-validated (their rejection is the same finding)."""
     import tracecheck
     listed = {k.get("prog_hash") for k in ctx.known.get("findings", [])}
     hashes = [dsl.prog_hash(p) for p in progs]
     skipped = sum(1 for h in hashes if h in listed)
-    rej = tracecheck.validate(ctx, progs, res, cfgname=cfgname, label=label, skip=lambda i: hashes[i] in listed)
+    rej = tracecheck.validate(ctx, progs, res, cfgname=cfgname, label=label, skip=lambda i: hashes[i] in listed, pb_of=pb_of)
     ctx.cov["trace_skipped_known_finding_programs"] = ctx.cov.get("trace_skipped_known_finding_programs", 0) + skipped
     for i, meta, info in rej:
         ev = info["event"]
